@@ -2053,3 +2053,605 @@ func ruleMulClamp(c *Ctx, r *Rep) {
 		r.Undecided("mulclamp:census", token.NoPos, "no machine-integer product with a JSON-derived factor found outside the arithmetic operators (repeatString has one)")
 	}
 }
+
+// ---------------------------------------------------------------------------------------------------------------------
+// R-C17-newlinesib: every counter of discarded lines recognises the line terminators the excerpt scanner recognises.
+
+func init() {
+	reg(&Rule{ID: "R-C17-newlinesib", Props: []string{"C17"}, Floor: 3,
+		Doc: "the places that add the lines of discarded input to the line counter recognise the same terminators (LF, CR, CRLF) as the scanner that numbers the lines of the retained window, and never cut between a CR and its LF: the line number of an error does not depend on how much input was discarded before it",
+		Run: ruleNewlineSib})
+	addDecided("C17", " The counters of discarded lines recognise the terminators the excerpt scanner recognises and do not split CRLF (R-C17-newlinesib; D33).")
+}
+
+// terminatorLits: which of '\n', '\r' a node mentions as byte/rune/string literals, following calls to functions of the
+// package up to depth 2.
+func terminatorLits(c *Ctx, p *packages.Package, nd ast.Node, depth int, out map[string]bool) {
+	info := p.TypesInfo
+	ast.Inspect(nd, func(m ast.Node) bool {
+		switch x := m.(type) {
+		case *ast.BasicLit:
+			if x.Kind == token.CHAR || x.Kind == token.STRING {
+				if s, err := strconv.Unquote(x.Value); err == nil {
+					if strings.Contains(s, "\n") {
+						out["LF"] = true
+					}
+					if strings.Contains(s, "\r") {
+						out["CR"] = true
+					}
+				}
+			}
+		case *ast.CallExpr:
+			if depth > 0 {
+				if f, ok := callee(info, x).(*types.Func); ok && f.Pkg() == p.Types {
+					key := f.Name()
+					if sig := f.Type().(*types.Signature); sig.Recv() != nil {
+						if n := namedOf(sig.Recv().Type()); n != nil {
+							key = n.Obj().Name() + "." + f.Name()
+						}
+					}
+					if fd := c.Decl(p, key); fd != nil {
+						terminatorLits(c, p, fd.Body, depth-1, out)
+					}
+				}
+			}
+		}
+		return true
+	})
+}
+
+func ruleNewlineSib(c *Ctx, r *Rep) {
+	p := c.Cli
+	info := p.TypesInfo
+	// the reference: what the scanner of the retained window recognises
+	ref := map[string]bool{}
+	for _, k := range []string{"stringScanner.next", "indexNewline"} {
+		if fd := c.Decl(p, k); fd != nil {
+			terminatorLits(c, p, fd.Body, 2, ref)
+		}
+	}
+	if !ref["LF"] {
+		r.Undecided("newline:reference", token.NoPos, "the line scanner of the excerpt (stringScanner.next / indexNewline) was not found or mentions no line feed")
+		return
+	}
+	r.OK("newline:reference", token.NoPos, "the excerpt scanner recognises %v", keysOf(ref))
+	n := 0
+	for _, fd := range c.Decls(p) {
+		ast.Inspect(fd.Body, func(m ast.Node) bool {
+			as, ok := m.(*ast.AssignStmt)
+			if !ok || as.Tok != token.ADD_ASSIGN || len(as.Lhs) != 1 || len(as.Rhs) != 1 {
+				return true
+			}
+			if t := info.TypeOf(as.Lhs[0]); t == nil || !isMachineInt(t) {
+				return true
+			}
+			got := map[string]bool{}
+			terminatorLits(c, p, as.Rhs[0], 2, got)
+			if !got["LF"] && !got["CR"] {
+				return true
+			}
+			n++
+			key := fmt.Sprintf("newline:%s:%s", declKey(fd), c.Src(as.Lhs[0]))
+			var missing []string
+			for t := range ref {
+				if !got[t] {
+					missing = append(missing, t)
+				}
+			}
+			sort.Strings(missing)
+			if len(missing) > 0 {
+				r.Bad(key, as.Pos(), "%s adds `%s` to the line counter %s: it does not recognise %v, which the scanner of the retained window counts as line ends — for input whose lines end in a lone CR the reported line depends on how much was discarded before the error (20001 lines of `1\\r` then `[}`: line 4405 from a pipe, 3617 from a file, 11 when the same error is within the first 16 KiB)", declKey(fd), c.Src(as.Rhs[0]), c.Src(as.Lhs[0]), missing)
+				return true
+			}
+			// CRLF must not be split by the cut: the function tests the byte before the cut for CR
+			split := false
+			ast.Inspect(fd.Body, func(q ast.Node) bool {
+				b, ok := q.(*ast.BinaryExpr)
+				if !ok || (b.Op != token.EQL && b.Op != token.NEQ) {
+					return true
+				}
+				for _, e := range []ast.Expr{b.X, b.Y} {
+					if bl, ok := unparen(e).(*ast.BasicLit); ok && bl.Kind == token.CHAR {
+						if s, err := strconv.Unquote(bl.Value); err == nil && s == "\r" {
+							split = true
+						}
+					}
+				}
+				return true
+			})
+			if ref["CR"] && !split {
+				r.Bad(key, as.Pos(), "%s counts LF, CR and CRLF in the discarded bytes but never looks whether the cut falls between a CR and its LF: a CRLF split by the cut is counted once in the discarded part and once more in the retained window", declKey(fd))
+				return true
+			}
+			r.OK(key, as.Pos(), "%s counts the discarded lines with the terminators of the excerpt scanner %v and tests the byte before the cut for CR", declKey(fd), keysOf(got))
+			return true
+		})
+	}
+	if n < 2 {
+		r.Undecided("newline:census", token.NoPos, "%d places add a count of line terminators to a line counter (the re-read loop of getContents and the window reset of jsonInputIter.Next are two)", n)
+	}
+}
+
+// ---------------------------------------------------------------------------------------------------------------------
+// R-C17-seekorigin: positions in a seekable input are relative to where reading began, not to the start of the file.
+
+func init() {
+	reg(&Rule{ID: "R-C17-seekorigin", Props: []string{"C17", "C16"}, Floor: 2,
+		Doc: "every absolute repositioning (Seek(x, io.SeekStart)) of the input stream uses a position obtained from Seek(0, io.SeekCurrent) — the current position, or the position recorded when reading began — never a constant, and a position obtained with io.SeekEnd is made relative to the recorded start before it is used as an input offset: standard input may be a file the caller has already read from",
+		Run: ruleSeekOrigin})
+	addDecided("C17", " Re-reading a seekable input starts where reading began (R-C17-seekorigin; D34).")
+}
+
+func ruleSeekOrigin(c *Ctx, r *Rep) {
+	p := c.Cli
+	info := p.TypesInfo
+	whence := func(call *ast.CallExpr) string {
+		if len(call.Args) != 2 {
+			return ""
+		}
+		sel, ok := unparen(call.Args[1]).(*ast.SelectorExpr)
+		if !ok {
+			if v, ok := constInt(info, call.Args[1]); ok {
+				return map[int64]string{0: "SeekStart", 1: "SeekCurrent", 2: "SeekEnd"}[v]
+			}
+			return ""
+		}
+		return sel.Sel.Name
+	}
+	isSeek := func(call *ast.CallExpr) bool {
+		sel, ok := call.Fun.(*ast.SelectorExpr)
+		if !ok || sel.Sel.Name != "Seek" || len(call.Args) != 2 {
+			return false
+		}
+		f, ok := info.Uses[sel.Sel].(*types.Func)
+		return ok && f.Type().(*types.Signature).Results().Len() == 2
+	}
+	// fields and variables that hold a position obtained from Seek(0, io.SeekCurrent)
+	fromCurrent := map[types.Object]bool{}
+	tainted := map[types.Object]bool{} // … assigned from something else somewhere
+	isCurrentCall := func(e ast.Expr) bool {
+		call, ok := unparen(e).(*ast.CallExpr)
+		if !ok || !isSeek(call) || whence(call) != "SeekCurrent" {
+			return false
+		}
+		v, ok := constInt(info, call.Args[0])
+		return ok && v == 0
+	}
+	for _, fd := range c.Decls(p) {
+		ast.Inspect(fd.Body, func(m ast.Node) bool {
+			switch x := m.(type) {
+			case *ast.AssignStmt:
+				if len(x.Rhs) == 1 && isCurrentCall(x.Rhs[0]) && len(x.Lhs) == 2 {
+					switch l := x.Lhs[0].(type) {
+					case *ast.Ident:
+						if o := info.ObjectOf(l); o != nil {
+							fromCurrent[o] = true
+						}
+					case *ast.SelectorExpr:
+						if o := info.Uses[l.Sel]; o != nil {
+							fromCurrent[o] = true
+						}
+					}
+					return true
+				}
+				for i, lhs := range x.Lhs {
+					var o types.Object
+					switch l := lhs.(type) {
+					case *ast.Ident:
+						o = info.ObjectOf(l)
+					case *ast.SelectorExpr:
+						o = info.Uses[l.Sel]
+					}
+					if o == nil {
+						continue
+					}
+					// assigned from a variable that is itself from-current: propagated below; anything else taints
+					if len(x.Rhs) == len(x.Lhs) {
+						if id, ok := unparen(x.Rhs[i]).(*ast.Ident); ok && fromCurrent[info.ObjectOf(id)] {
+							fromCurrent[o] = true
+							continue
+						}
+					}
+					tainted[o] = true
+				}
+			case *ast.CompositeLit:
+				// inputReader{r, r, nil, start} / inputReader{start: start}
+				st, ok := info.TypeOf(x).Underlying().(*types.Struct)
+				if !ok {
+					return true
+				}
+				for i, el := range x.Elts {
+					var fld *types.Var
+					val := el
+					if kv, ok := el.(*ast.KeyValueExpr); ok {
+						if id, ok := kv.Key.(*ast.Ident); ok {
+							fld, _ = info.Uses[id].(*types.Var)
+						}
+						val = kv.Value
+					} else if i < st.NumFields() {
+						fld = st.Field(i)
+					}
+					if fld == nil || !isMachineInt(fld.Type()) {
+						continue
+					}
+					if id, ok := unparen(val).(*ast.Ident); ok && fromCurrent[info.ObjectOf(id)] {
+						fromCurrent[fld] = true
+					} else if v, ok := constInt(info, val); ok && v == 0 {
+						// the zero position of a stream that cannot seek: never used for seeking
+					} else {
+						tainted[fld] = true
+					}
+				}
+			}
+			return true
+		})
+	}
+	posObj := func(e ast.Expr) types.Object {
+		switch x := unparen(e).(type) {
+		case *ast.Ident:
+			return info.ObjectOf(x)
+		case *ast.SelectorExpr:
+			return info.Uses[x.Sel]
+		}
+		return nil
+	}
+	n := 0
+	for _, fd := range c.Decls(p) {
+		ast.Inspect(fd.Body, func(m ast.Node) bool {
+			call, ok := m.(*ast.CallExpr)
+			if !ok || !isSeek(call) {
+				return true
+			}
+			switch whence(call) {
+			case "SeekStart":
+				n++
+				key := fmt.Sprintf("seek:%s:%s", declKey(fd), c.Src(call))
+				o := posObj(call.Args[0])
+				switch {
+				case o != nil && fromCurrent[o] && !tainted[o]:
+					r.OK(key, call.Pos(), "%s repositions the input to %s, a position obtained from Seek(0, io.SeekCurrent)", declKey(fd), c.Src(call.Args[0]))
+				case o == nil:
+					r.Bad(key, call.Pos(), "%s repositions the input with `%s`: the position is not one obtained from Seek(0, io.SeekCurrent) — when standard input is a file the caller has partly read (`{ read x; gojq .; } < file`), offsets count from where gojq began, and re-reading from the absolute position %s quotes the wrong line", declKey(fd), c.Src(call), c.Src(call.Args[0]))
+				default:
+					r.Bad(key, call.Pos(), "%s repositions the input to %s, which is not (only) a position obtained from Seek(0, io.SeekCurrent)", declKey(fd), c.Src(call.Args[0]))
+				}
+			case "SeekEnd":
+				n++
+				key := fmt.Sprintf("seek:%s:%s", declKey(fd), c.Src(call))
+				// the result must meet a recorded start in a subtraction within the function
+				adjusted := false
+				ast.Inspect(fd.Body, func(q ast.Node) bool {
+					switch x := q.(type) {
+					case *ast.BinaryExpr:
+						if x.Op == token.SUB {
+							if o := posObj(x.Y); o != nil && fromCurrent[o] && !tainted[o] {
+								adjusted = true
+							}
+						}
+					case *ast.AssignStmt:
+						if x.Tok == token.SUB_ASSIGN && len(x.Rhs) == 1 {
+							if o := posObj(x.Rhs[0]); o != nil && fromCurrent[o] && !tainted[o] {
+								adjusted = true
+							}
+						}
+					}
+					return true
+				})
+				r.Check(adjusted, key, call.Pos(), "%s uses the end position of the input as an offset only after subtracting the position reading began at: %v", declKey(fd), adjusted)
+			}
+			return true
+		})
+	}
+	if n < 2 {
+		r.Undecided("seek:census", token.NoPos, "%d absolute repositionings of the input found (getContents has two, the unexpected-EOF path one)", n)
+	}
+}
+
+// ---------------------------------------------------------------------------------------------------------------------
+// R-C08-strslice: a string cut or indexed at a constant position is known to be long enough.
+
+func init() {
+	reg(&Rule{ID: "R-C08-strslice", Props: []string{"C08", "C18"}, Floor: 20,
+		Doc: "every s[K:], s[:K], s[K:j] and s[K] on a string with a constant K >= 1 (s[0] included) is dominated by a condition that implies len(s) > K-1 or > K — strings.HasPrefix with a long enough literal, a length or emptiness test, a successful s[0] comparison — or is an enumerated site whose operand is non-empty by construction (a token of the lexer, a name the grammar produced): a search path, a flag or a metadata string is user input, and a cut beyond its end is a run-time panic",
+		Run: ruleStrSlice})
+	reg(&Rule{ID: "R-C17-graphemewidth", Props: []string{"C17"}, Floor: 1,
+		Doc: "the caret column is a runewidth.StringWidth of the prefix (grapheme clusters counted once); runewidth.RuneWidth, whose per-code-point sum counts a ZWJ sequence or a flag several times, is not used in the command",
+		Run: ruleGraphemeWidth})
+	addDecided("C08", " A string cut or indexed at a constant position is long enough by a dominating condition or by an enumerated construction argument (R-C08-strslice).")
+	addDecided("C17", " The caret column is measured with runewidth.StringWidth, never by summing RuneWidth (R-C17-graphemewidth).")
+}
+
+// strSliceReviewed: sites justified by how the operand is constructed, not by a local condition.
+var strSliceReviewed = map[string]string{
+	"compiler.compileLabel:e.Ident[1:]":     "Label.Ident is the tokVariable of `label $name`: the lexer emits variables with their leading '$'",
+	"compiler.compileBreak:label[1:]":       "the operand of break is the tokVariable of `break $name`",
+	"compiler.compileFormat:format[1:]":     "format is a tokFormat token, which the lexer emits with its leading '@'",
+	"compiler.compileFuncDef:arg[0]":        "FuncDef.Args are tokIdent/tokVariable tokens: never empty",
+	"compiler.compileFunc:e.Name[0]":        "Func.Name is a tokIdent/tokVariable/tokModuleIdent/tokModuleVariable token or a name the compiler synthesises: never empty (a hand-built AST with an empty name is not query text)",
+	"compiler.lookupFuncOrVariable:name[0]": "called with Func.Name (see compileFunc) — never empty",
+	"Query.isValue:e.Term.Func.Name[0]":     "Func.Name of a parsed or compiler-built term: never empty (see compileFunc)",
+	"compiler.funcBuiltins:fd.Name[0]":      "names of builtinFuncDefs, a table generated from builtin.jq: definitions have names",
+	"compiler.funcBuiltins:name[0]":         "keys of the internalFuncs table literal: none is empty (host-registered names are tested with strings.HasPrefix since D36)",
+	"listModuleDefs:fd.Name[0]":             "FuncDefs of a parsed module: the grammar gives a definition a tokIdent name",
+	"String.writeTo:es[1 : len(es)-1]":      "es is the printed form of a string term without interpolation: a JSON string literal, at least the two quotes",
+	"lexer.scanString:src[1 : len(src)-1]":  "src is l.source[start:i+1] with source[start] and source[i] the quotes of the literal: at least two bytes",
+	"lexer.Lex:l.token[1:]":                 "l.token was just cut from the source starting at the '.' that led here: at least one byte",
+	"cli.runInternal:name[1:]":              "cli.argnames are built by the flag handlers as \"$\" + name",
+	"parseFlags:arg[2:]":                    "reached with val resolved through longToValue after strings.HasPrefix(arg, \"--\"), or through a short option, for which len(arg) == 2 exactly and arg[2:] is empty",
+}
+
+type lenFact struct {
+	min    int  // len(T) >= min holds
+	proven bool // false: nothing known
+}
+
+func ruleStrSlice(c *Ctx, r *Rep) {
+	n := 0
+	for _, p := range []*packages.Package{c.Gojq, c.Cli} {
+		if p == nil {
+			continue
+		}
+		info := p.TypesInfo
+		isStr := func(e ast.Expr) bool {
+			t := info.TypeOf(e)
+			if t == nil {
+				return false
+			}
+			b, ok := t.Underlying().(*types.Basic)
+			return ok && b.Info()&types.IsString != 0
+		}
+		for _, fd := range c.Decls(p) {
+			file := c.PhysFile(fd.Pos())
+			if file == "parser.go" || file == "builtin.go" {
+				continue
+			}
+			// the minimum length of the string written T that a condition implies when it holds (pos) or fails (!pos)
+			var implied func(cond ast.Expr, T string, pos bool) int
+			implied = func(cond ast.Expr, T string, pos bool) int {
+				cond = unparen(cond)
+				switch x := cond.(type) {
+				case *ast.UnaryExpr:
+					if x.Op == token.NOT {
+						return implied(x.X, T, !pos)
+					}
+				case *ast.BinaryExpr:
+					switch x.Op {
+					case token.LAND, token.LOR:
+						a, b := implied(x.X, T, pos), implied(x.Y, T, pos)
+						// holds: && gives both, || gives the weaker; fails: the De Morgan dual
+						if (x.Op == token.LAND) == pos {
+							return max(a, b)
+						}
+						return min(a, b)
+					case token.EQL, token.NEQ:
+						eq := (x.Op == token.EQL) == pos
+						for _, pr := range [][2]ast.Expr{{x.X, x.Y}, {x.Y, x.X}} {
+							a, b := unparen(pr[0]), unparen(pr[1])
+							// T == "lit" / T != ""
+							if types.ExprString(a) == T {
+								if s, ok := constString(info, b); ok {
+									if eq {
+										return len(s)
+									}
+									if s == "" {
+										return 1
+									}
+								}
+							}
+							// T[i] == c: the comparison was evaluated, so the index exists
+							if ix, ok := a.(*ast.IndexExpr); ok && types.ExprString(ix.X) == T {
+								if k, ok := constInt(info, ix.Index); ok {
+									return int(k) + 1
+								}
+							}
+							// len(T) == n
+							if call, ok := a.(*ast.CallExpr); ok && len(call.Args) == 1 && types.ExprString(call.Fun) == "len" && types.ExprString(call.Args[0]) == T {
+								if k, ok := constInt(info, b); ok && eq {
+									return int(k)
+								}
+							}
+						}
+					case token.LSS, token.LEQ, token.GTR, token.GEQ:
+						// normalise to len(T) OP k
+						a, b, op := unparen(x.X), unparen(x.Y), x.Op
+						if _, ok := constInt(info, a); ok {
+							a, b = b, a
+							op = map[token.Token]token.Token{token.LSS: token.GTR, token.LEQ: token.GEQ, token.GTR: token.LSS, token.GEQ: token.LEQ}[op]
+						}
+						call, ok := a.(*ast.CallExpr)
+						if !ok || len(call.Args) != 1 || types.ExprString(call.Fun) != "len" || types.ExprString(call.Args[0]) != T {
+							// T[i] < c etc.: evaluated index
+							if ix, ok := a.(*ast.IndexExpr); ok && types.ExprString(ix.X) == T {
+								if k, ok := constInt(info, ix.Index); ok {
+									return int(k) + 1
+								}
+							}
+							return 0
+						}
+						k64, ok := constInt(info, b)
+						if !ok {
+							return 0
+						}
+						k := int(k64)
+						if !pos {
+							op = map[token.Token]token.Token{token.LSS: token.GEQ, token.LEQ: token.GTR, token.GTR: token.LEQ, token.GEQ: token.LSS}[op]
+						}
+						switch op {
+						case token.GTR:
+							return k + 1
+						case token.GEQ:
+							return k
+						}
+						return 0
+					}
+				case *ast.CallExpr:
+					if pos && calleeName(info, x) == "strings.HasPrefix" && len(x.Args) == 2 {
+						a := types.ExprString(unparen(x.Args[0]))
+						if a == T || a == T+".String()" || a == "string("+T+")" {
+							if s, ok := constString(info, x.Args[1]); ok {
+								return len(s)
+							}
+						}
+					}
+				}
+				return 0
+			}
+			terminates := func(b *ast.BlockStmt) bool {
+				if len(b.List) == 0 {
+					return false
+				}
+				switch x := b.List[len(b.List)-1].(type) {
+				case *ast.ReturnStmt, *ast.BranchStmt:
+					return true
+				case *ast.ExprStmt:
+					if call, ok := x.X.(*ast.CallExpr); ok {
+						if id, ok := call.Fun.(*ast.Ident); ok && id.Name == "panic" {
+							return true
+						}
+					}
+				}
+				return false
+			}
+			walkStack(fd.Body, func(m ast.Node, stack []ast.Node) bool {
+				var X ast.Expr
+				need := 0 // len(X) >= need
+				desc := ""
+				switch x := m.(type) {
+				case *ast.SliceExpr:
+					if !isStr(x.X) {
+						return true
+					}
+					for _, b := range []ast.Expr{x.Low, x.High} {
+						if b == nil {
+							continue
+						}
+						if k, ok := constInt(info, b); ok && int(k) > need {
+							need = int(k)
+						}
+					}
+					X, desc = x.X, c.Src(x)
+				case *ast.IndexExpr:
+					if !isStr(x.X) {
+						return true
+					}
+					k, ok := constInt(info, x.Index)
+					if !ok {
+						return true
+					}
+					X, need, desc = x.X, int(k)+1, c.Src(x)
+				default:
+					return true
+				}
+				if need == 0 {
+					return true
+				}
+				// a constant operand
+				if s, ok := constString(info, X); ok && len(s) >= need {
+					return true
+				}
+				n++
+				T := types.ExprString(unparen(X))
+				key := fmt.Sprintf("strslice:%s:%s", declKey(fd), desc)
+				best := 0
+				for i, anc := range stack {
+					var child ast.Node = m
+					if i+1 < len(stack) {
+						child = stack[i+1]
+					}
+					switch a := anc.(type) {
+					case *ast.IfStmt:
+						if child == ast.Node(a.Body) {
+							best = max(best, implied(a.Cond, T, true))
+						} else if a.Else != nil && child == ast.Node(a.Else) {
+							best = max(best, implied(a.Cond, T, false))
+						}
+						// the condition itself, right of &&: handled by BinaryExpr below
+					case *ast.BinaryExpr:
+						// a && <here>: a holds; a || <here>: a fails
+						if child == ast.Node(a.Y) {
+							if a.Op == token.LAND {
+								best = max(best, implied(a.X, T, true))
+							} else if a.Op == token.LOR {
+								best = max(best, implied(a.X, T, false))
+							}
+						}
+					case *ast.CaseClause:
+						// tagless switch: this arm's condition holds (the earlier arms' conditions fail: not needed)
+						if i >= 2 {
+							if sw, ok := stack[i-2].(*ast.SwitchStmt); ok && sw.Tag == nil && len(a.List) > 0 {
+								inBody := false
+								for _, st := range a.Body {
+									if ast.Node(st) == child {
+										inBody = true
+									}
+								}
+								if inBody {
+									w := 1 << 30
+									for _, e := range a.List {
+										w = min(w, implied(e, T, true))
+									}
+									best = max(best, w)
+								}
+							}
+						}
+					}
+					// earlier statements of the enclosing list that leave when a condition holds
+					var list []ast.Stmt
+					switch b := anc.(type) {
+					case *ast.BlockStmt:
+						list = b.List
+					case *ast.CaseClause:
+						list = b.Body
+					}
+					for _, st := range list {
+						if ast.Node(st) == child {
+							break
+						}
+						if ifs, ok := st.(*ast.IfStmt); ok && ifs.Else == nil && ifs.Init == nil && terminates(ifs.Body) {
+							best = max(best, implied(ifs.Cond, T, false))
+						}
+					}
+				}
+				if best >= need {
+					r.OK(key, m.Pos(), "%s: the conditions that hold here imply len(%s) >= %d", desc, T, best)
+					return true
+				}
+				if why, ok := strSliceReviewed[declKey(fd)+":"+desc]; ok {
+					r.OK(key, m.Pos(), "%s: enumerated — %s", desc, why)
+					return true
+				}
+				r.Bad(key, m.Pos(), "%s in %s needs len(%s) >= %d, and the conditions that hold there imply only >= %d: for a shorter string (an exact \"~\" or \"$ORIGIN\" search path, an empty name) this is a slice-bounds panic no try can catch", desc, declKey(fd), T, need, best)
+				return true
+			})
+		}
+	}
+	if n == 0 {
+		r.Undecided("strslice:census", token.NoPos, "no constant cut of a string found")
+	}
+}
+
+func ruleGraphemeWidth(c *Ctx, r *Rep) {
+	p := c.Cli
+	info := p.TypesInfo
+	n := 0
+	for _, fd := range c.Decls(p) {
+		ast.Inspect(fd.Body, func(m ast.Node) bool {
+			call, ok := m.(*ast.CallExpr)
+			if !ok {
+				return true
+			}
+			switch nm := calleeName(info, call); {
+			case nm == "runewidth.RuneWidth" || strings.HasSuffix(nm, "Condition.RuneWidth"):
+				n++
+				r.Bad("width:"+declKey(fd)+":RuneWidth", call.Pos(), "%s measures with runewidth.RuneWidth: a sum of per-code-point widths counts every code point of a grapheme cluster (a ZWJ emoji sequence, a flag, a base letter with variation selector), so the caret lands to the right of the offending character", declKey(fd))
+			case nm == "runewidth.StringWidth" || strings.HasSuffix(nm, "Condition.StringWidth"):
+				n++
+				r.OK("width:"+declKey(fd)+":StringWidth", call.Pos(), "%s measures the prefix with runewidth.StringWidth", declKey(fd))
+			}
+			return true
+		})
+	}
+	if n == 0 {
+		r.Undecided("width:census", token.NoPos, "the command no longer measures a display width with go-runewidth")
+	}
+}
